@@ -43,11 +43,13 @@ prop('C03',
      title='Adding and subtracting elapsed time is exact or refused, never wrapped',
      verus=['datetime', 'date', 'iters'],
      twin=['datetime', 'date', 'iters', 'zoned'],
-     uncovered=['DateTime<Tz>::checked_add_signed/checked_sub_signed/signed_duration_since for Tz other than via the naive UTC value (delegations through TimeZone::from_utc_datetime)',
+     uncovered=['DateTime<Tz>::signed_duration_since (impl Borrow argument) and the operator impls of DateTime<Tz>',
                 'AddAssign/SubAssign impls', 'Add/Sub<core::time::Duration> impls (std Duration conversion)'],
      text='Verus proves NaiveDateTime::checked_add_signed/checked_sub_signed/signed_duration_since (exact instant or refusal exactly when not representable), '
           'NaiveDate::add_days/checked_add_days/checked_sub_days/checked_add_signed/checked_sub_signed/signed_duration_since for every u64/i32/TimeDelta argument, '
-          'the operator forms (= checked form + expect) and the day/week iterators (step 1/7, end at the limit, exact size_hint) on the real text.')
+          'the operator forms (= checked form + expect), the day/week iterators (step 1/7, end at the limit, exact size_hint), and the zone-aware forms DateTime<Tz>::checked_add_signed / '
+          'checked_sub_signed / with_timezone / to_utc generically in Tz (same instants whatever the offset: the provided method TimeZone::from_utc_datetime keeps the UTC field, proved on its default body; '
+          'a scan checks that no impl overrides it) on the real text.')
 
 prop('C07',
      title='Time-of-day arithmetic wraps by whole days and honours leap-second operands',
